@@ -18,7 +18,7 @@ class BaseSubfunction:
                 if subfn[1] == subfn_id:  # [1] is value
                     return subfn[0] 		# [0] is property name
             elif isinstance(subfn[1], tuple):
-                if subfn_id >= subfn[1][0] or subfn_id <= subfn[1][1]:
+                if subfn_id >= subfn[1][0] and subfn_id <= subfn[1][1]:
                     return subfn[0]
         name = cls.__name__ if not hasattr(cls, '__pretty_name__') else cls.__pretty_name__
         return 'Custom %s' % name
